@@ -4,7 +4,7 @@ import json
 import sys
 from multiprocessing import Pool
 
-sys.path.insert(0, "/verif")
+sys.path.insert(0, __import__("os").path.dirname(__import__("os").path.dirname(__import__("os").path.abspath(__file__))))
 
 
 def one(args):
@@ -17,14 +17,14 @@ def one(args):
 
 
 if __name__ == "__main__":
-    d = json.load(open("/verif/known_findings.json"))
+    d = json.load(open(__import__("os").path.join(__import__("os").path.dirname(__import__("os").path.dirname(__import__("os").path.abspath(__file__))), "known_findings.json")))
     jobs = []
     for e in d["findings"]:
         if e["property"] == "C18":
             for n in e["names"]:
                 jobs.append((e["scope"], n, "thorough"))
     jobs += [(s, n) for s, n in (("endpoint", x) for x in sys.argv[1:])]
-    with Pool(14) as p:
+    with Pool(int(__import__("os").environ.get("C18_POOL", "14"))) as p:
         res = p.map(one, jobs)
     out = {"model": {}, "endpoint": {}}
     for scope, name, fails in res:
